@@ -43,7 +43,7 @@ ASSUMPTIONS = [
 REACH = {t: ["kind_error", "kind_rstack", "kind_silent", "kind_naksilent", "kind_lost", "kind_eof", "phase_bringup", "phase_idle",
              "phase_inflight", "phase_reset", "phase_after_close", "reset_request_observed",
              "new_command_refused_at_once", "timer_aligned", "deliberate_close_silent", "queued_calls_released",
-             "failure_after_an_earlier_unattended_failure"]
+             "failure_after_an_earlier_unattended_failure", "caller_cancelled_in_the_failure_iteration"]
          for t in ("quick", "thorough")}
 SHARD_TIMEOUT = {"quick": 900, "thorough": 3600}
 
@@ -68,7 +68,7 @@ def run_case(V, case):
         ws.transport_errors = "close" if (case.get("at") or 0) % 2 else "log"
         ws.install_serial()
         phase = ["bringup"]
-        state = {"registered": False, "closed": False, "failed": False, "ez": None}
+        state = {"registered": False, "closed": False, "failed": False, "ez": None, "tasks": {}}
 
         def app_cb(name, args):
             if name == "_reset_controller_application":
@@ -103,6 +103,15 @@ def run_case(V, case):
             info["closed_at_failure"] = state["closed"]
             info["timers_at_failure"] = loop.pending_host_timers()
             info["open_at_failure"] = [k for k, c in info["calls"].items() if c.get("end") is None]
+            if case.get("cancel_first"):
+                # the caller of the command that is in flight right now is cancelled, and the failure is
+                # processed before the cancelled task has run its clean-up (same loop iteration)
+                for nm_, tk_ in list(state["tasks"].items()):
+                    if not tk_.done():
+                        trace.append(("cancel_caller", clock(), nm_))
+                        tk_.cancel()
+                        info["cancelled_caller"] = nm_
+                        break
             trace.append(("inject", clock(), kind, case.get("code")))
             if kind in ("error", "rstack"):
                 ws.silent = False  # the failure frame itself must get through
@@ -146,6 +155,16 @@ def run_case(V, case):
         ws.line.armed = True  # frames are counted from the very first one (no random faults: vector empty)
 
         async def call(name, coro_fn):
+            tk = asyncio.ensure_future(call_(name, coro_fn))
+            state["tasks"][name] = tk
+            try:
+                return await asyncio.shield(tk)
+            except asyncio.CancelledError:
+                if tk.cancelled() or tk.done():
+                    return None  # the harness cancelled this caller on purpose
+                raise
+
+        async def call_(name, coro_fn):
             info["calls"][name] = {"start": clock(), "end": None, "outcome": None, "phase": phase[0]}
             trace.append(("call", clock(), name))
             try:
@@ -383,6 +402,10 @@ def run_shard(desc) -> Acc:
         stride = 2 if desc["tier"] == "thorough" else 5
         for i in range(first, n_pf + 1, stride):
             cases.append({"kind": desc["kind"], "code": desc["code"], "at": i, "offset": 0.0015, "prefail": pf})
+    # ... and with the in-flight command's caller cancelled in the very iteration of the failure
+    if desc["kind"] in ("error", "rstack", "lost", "eof"):
+        for i in range(0, n + 1, 1 if desc["tier"] == "thorough" else 2):
+            cases.append({"kind": desc["kind"], "code": desc["code"], "at": i, "offset": 0.0015, "cancel_first": True})
     for case in cases:
         acc.case()
         trace, info = run_case(V, case)
@@ -393,7 +416,9 @@ def run_shard(desc) -> Acc:
         for f in facts:
             acc.hit(f)
         if info["t_fail"] is not None and not info.get("closed_at_failure"):
-            acc.nontrivial((V, case["kind"], case.get("code"), case["at"], case.get("offset"), case.get("align_timer"), case.get("prefail")))
+            acc.nontrivial((V, case["kind"], case.get("code"), case["at"], case.get("offset"), case.get("align_timer"), case.get("prefail"), case.get("cancel_first")))
+            if info.get("cancelled_caller") and info["registered_at_failure"]:
+                acc.hit("caller_cancelled_in_the_failure_iteration")
         for e in trace:
             acc.ev(e[0])
         if len(acc.samples) < 1 and info["phase_at_failure"] == "inflight":
